@@ -149,9 +149,9 @@ impl Property for C13 {
         "C13"
     }
     fn rule(&self) -> String {
-        "slim box-bodied robots with optional tool/base + 0..3 free-floating obstacles + non-wrapping limits (one window set in three is shifted, so that windows reach beyond +-pi, e.g. 90..270 degrees); start/goal drawn inside the limit box (in one case in four with some joints exactly on a limit) and kept when the robot reports them free (rejections counted); step 1..10 degrees; max_try in {1,10,100,2000}; \
+        "slim box-bodied robots with optional tool/base + 0..3 free-floating obstacles + non-wrapping limits (every other window set is shifted, so that windows reach beyond +-pi, e.g. 90..270 degrees); start/goal drawn inside the limit box (in one case in four with some joints exactly on a limit) and kept when the robot reports them free (rejections counted); step 1..10 degrees; max_try in {1,10,100,2000}; \
          library RNG seeded per case through verif_hooks; cancellation never / before the call / at the N-th collision query (made deterministic by a counting Kinematics wrapper owned by the harness). \
-         A second 'coarse' regime uses narrow limit windows (some joints +-0.05..0.2 rad), steps of 12..40 degrees and obstacles attached next to the arm, so that random samples often land within one step of a tree vertex and a noticeable share of the window collides. A 'long relocation' regime (1 case in 25) puts start and goal at opposite corners of the limit box with a step of 0.2..0.6 degrees (300..3000 planner steps apart). Non-trivial: a returned path with >= 4 nodes (>= 3 in the coarse regime) in a scene with >= 1 obstacle, a path of more than 257 nodes, or a cancellation case."
+         A second 'coarse' regime uses narrow limit windows (some joints +-0.05..0.2 rad), steps of 12..40 degrees and obstacles attached next to the arm, so that random samples often land within one step of a tree vertex and a noticeable share of the window collides. A 'huge step' regime (2 cases in 27) uses steps of 60..170 degrees (above one radian) between opposite corners of the limit box. A 'long relocation' regime (1 case in 27) puts start and goal at opposite corners of the limit box with a step of 0.2..0.6 degrees (300..3000 planner steps apart). Non-trivial: a returned path with >= 4 nodes (>= 3 in the coarse regime) in a scene with >= 1 obstacle, a path of more than 257 nodes, or a cancellation case."
             .into()
     }
     fn assumptions(&self) -> Vec<String> {
@@ -201,7 +201,7 @@ impl Property for C13 {
             });
         let fine = (
             planning_scene(3),
-            prop_oneof![2 => limit_box(), 1 => limit_box_shifted()],
+            prop_oneof![1 => limit_box(), 1 => limit_box_shifted()],
             prop::array::uniform6(0.05..0.95f64),
             prop::array::uniform6(0.05..0.95f64),
             1.0..10.0f64,
@@ -215,9 +215,18 @@ impl Property for C13 {
                 if rng_seed % 4 == 0 {
                     for j in 0..6 {
                         if (rng_seed >> (8 + 2 * j)) & 1 != 0 {
-                            let side = ((rng_seed >> (9 + 2 * j)) & 1) as f64;
+                            let mut side = ((rng_seed >> (9 + 2 * j)) & 1) as f64;
+                            let mut both = (rng_seed >> (24 + j)) & 1 != 0;
+                            // a window that reaches beyond +pi (-pi): start and goal on the opposite stop, the one a mis-wrapped sample would pull the tree across
+                            if limits.to[j] > std::f64::consts::PI {
+                                side = 0.0;
+                                both = true;
+                            } else if limits.from[j] < -std::f64::consts::PI {
+                                side = 1.0;
+                                both = true;
+                            }
                             start_u[j] = side;
-                            if (rng_seed >> (24 + j)) & 1 != 0 {
+                            if both {
                                 goal_u[j] = side;
                             }
                         }
@@ -239,7 +248,13 @@ impl Property for C13 {
             let goal_u: [f64; 6] = std::array::from_fn(|k| if swap & (1 << k) != 0 { a[k] } else { b[k] });
             Case { scene, limits, start_u, goal_u, step_deg, max_try: 2000, rng_seed, cancel: 0, cancel_at: 1, close: None }
         });
-        prop_oneof![12 => fine, 8 => coarse, 4 => near, 1 => long].boxed()
+        // very large planner steps (above one radian) across the whole limit box
+        let huge = (planning_scene(1), limit_box(), prop::array::uniform6(0.02..0.2f64), prop::array::uniform6(0.8..0.98f64), 60.0..170.0f64, any::<u64>(), any::<u8>()).prop_map(|(scene, limits, a, b, step_deg, rng_seed, swap)| {
+            let start_u: [f64; 6] = std::array::from_fn(|k| if swap & (1 << k) != 0 { b[k] } else { a[k] });
+            let goal_u: [f64; 6] = std::array::from_fn(|k| if swap & (1 << k) != 0 { a[k] } else { b[k] });
+            Case { scene, limits, start_u, goal_u, step_deg, max_try: 200, rng_seed, cancel: 0, cancel_at: 1, close: None }
+        });
+        prop_oneof![12 => fine, 8 => coarse, 4 => near, 1 => long, 2 => huge].boxed()
     }
     fn check(&self, c: &Case, ctx: &mut Ctx) -> Res {
         if c.scene.safety.ambiguous() {
@@ -372,7 +387,7 @@ impl Property for C13 {
                     let d = (0..6).map(|k| (w[0][k] - w[1][k]).powi(2)).sum::<f64>().sqrt();
                     ensure!(d <= 3.0 * step + 1e-9, "consecutive nodes are at most three planner steps apart", "nodes {} and {}: distance {} > 3*{}", i, i + 1, d, step);
                 }
-                ctx.class(if c.step_deg > 10.5 { "regime:coarse steps / narrow windows" } else { "regime:fine steps" });
+                ctx.class(if c.step_deg > 57.3 { "regime:steps above one radian" } else if c.step_deg > 10.5 { "regime:coarse steps / narrow windows" } else { "regime:fine steps" });
                 ctx.class(&format!("path-nodes:{}", if path.len() < 4 { "<4" } else if path.len() < 20 { "4..19" } else { ">=20" }));
                 if path.len() > 257 {
                     ctx.class("path:longer than 256 nodes (fine step, long relocation)");
